@@ -204,7 +204,8 @@ CHECKS['C07'] = dict(
 
 LINTS = ('; AST lints over the modules the property lives in, run before anything is evaluated, for state Python keeps outside '
          'the modelled objects: mutable defaults that are changed, late-binding closures, memoisation over object state, self-storing '
-         'descriptors, private-name stores outside the class (no mangling), functions closing over self stored on the object')
+         'descriptors, private-name stores outside the class (no mangling), functions closing over self stored on the object, super() of the '
+         'dynamic class, exact-class tests, merged names in tables of time variables; functions under an unknown decorator fail closed')
 EXTRA = {
     'C01': '; early exits of the propagation loops; Powertrain.reset re-read (fresh list per variable); C10 ratio rules and the C06 triples met re-read',
     'C02': '; loop-carried values substituted in the driving rule; C08 laws, reset and C06 triples re-read',
@@ -213,17 +214,17 @@ EXTRA = {
     'C06': '; per-kind negation rule with dispatch inside the units package; accepted pairs may raise only TypeError / ZeroDivisionError for division / ValueError for a sign-constrained result kind; operand-purity rule',
     'C08': '; boundary tests census incl. truth-arithmetic forms; linear-combination infeasibility of guard pairs',
     'C09': '; worm table rows; role-without-link states excluded from the flag tables',
-    'C10': '; raw truth values handed to bool setters (numpy operands)',
+    'C10': '; raw truth values handed to bool setters (numpy operands); (in)equalities whose two sides were both converted to the same unit',
     'C11': '; identity tests between numbers; round(x, n) and opaque pure numeric helpers as uninterpreted functions',
     'C12': '; try/finally evaluated (final block on every exit); identity tests; C11 grid/count rules re-read for the continuation',
     'C13': '; C10 effects of all relation functions and the who-may-write census of the worm flag re-read; C03 integration rule and C12 continuation rule re-read',
     'C14': '; itertools.pairwise and numpy.clip modelled; the controller applied at an instant is the argument of this call in every context',
-    'C15': '; value semantics of and/or; role filters on the efficiency product',
+    'C15': '; value semantics of and/or; role filters on the efficiency product; reduce/prod over generators as the accumulating loop; C14 arbitration rules re-read',
     'C16': '; C05 comparison/table/to() rules of the compared kinds and sub-kinds re-read',
-    'C17': '; every recording instant computes the same derived quantities; who-may-write census of the histories and of the time axis',
-    'C18': '; export utility decided by abstract evaluation per variable kind',
+    'C17': '; every recording instant computes the same derived quantities; who-may-write census of the histories and of the time axis; the pwm sample is the duty cycle itself',
+    'C18': '; export utility decided by abstract evaluation per variable kind; a class whose block is skipped as a whole',
     'C19': '; raising paths of to() must not have stored; the constructor duty-cycle store is a constant in range or goes through the setter',
-    'C20': '; flag read through the getter; frozen pure getters; C10 atomicity of the links',
+    'C20': '; flag read through the getter; frozen pure getters; C10 atomicity of the links; never-mated worm gears in the concrete chains; a rejected chain leaves its elements untouched',
 }
 for _pid, _c in CHECKS.items():
     _c['technique'] = _c['technique'] + EXTRA.get(_pid, '') + LINTS
